@@ -135,6 +135,18 @@ PIPE_RULE = (" pipeline: per case a generated history (session commits, an overl
 DELTA_RUNS = [{"cmd": "delta", "mode": "delta", "cases": {"quick": 120, "thorough": 3000}, "shards": {"quick": 4, "thorough": 16}},
               {"cmd": "delta-log", "mode": "delta", "cases": {"quick": 1000, "thorough": 20000}, "shards": {"quick": 4, "thorough": 16}}]
 LEAFUPD_RUN = {"cmd": "leafupd", "mode": "leafupd", "cases": {"quick": 400, "thorough": 12000}, "shards": {"quick": 3, "thorough": 16}}
+# the real PageWalker over an in-memory page set (hook H14) against the Lean mirror Store/Walker*.lean (driver mode `walker`)
+WALKER_RUN = {"cmd": "walker", "mode": "walker", "cases": {"quick": 240, "thorough": 8000}, "shards": {"quick": 4, "thorough": 16}}
+WALKER_SPLIT_RUN = {"cmd": "walker", "mode": "walker", "args": ["--focus", "split"], "cases": {"quick": 120, "thorough": 4000}, "shards": {"quick": 4, "thorough": 16}}
+WALKER_RULE = (" walker (hook H14): the REAL PageWalker<Blake3Hasher> over an in-memory implementation of its PageSet trait, one protocol line per call (new / advance / advance_and_replace / advance_and_place_node / conclude / "
+               "reconstruct_pages), the answer carrying the walker's private state after the call (position, every stack entry with diff words, leaf counters and bitfield, sibling stack, a digest of the top page) and at conclude the root / "
+               "child-page roots and every updated page with all its slots, diff words, bitfield and bucket. 4/5 of the cases are multi-pass histories on one page store (2..6 commits; key universes of clusters under page boundaries 6k-1/6k/6k+1, "
+               "16..26-key clusters crossing the elision threshold in both directions, deep forks whose deletion collapses chains of pages, nested clusters; batches: bulk load, few changes, delete-most, contiguous runs, mixed with reads and absent "
+               "keys; fresh pool pages zero or garbage; elision inhibited in 1/5), elided pages on the way to a terminal rebuilt by the real reconstruct_pages as seek does, 1/3 of the passes in the split flow of merkle::worker (sub-walkers with "
+               "parent page ROOT deliver child-page roots which a root-page walker places); 1/5 are free-form scripts (backwards / same / into the parent page / below the previous terminal / missing pages / internal start nodes / unsorted and duplicate "
+               "ops / deeper parent pages) where the model must predict ok / panic and the state. Oracles independent of the model: reference-trie root; every slot of every STORED page whose parent position is internal = reference node (whole store "
+               "after every pass: unreported pages unchanged and still right); elision rule (required pages stored, stored pages exist below stored parents, elided bit = not stored for existing children); child-page roots = reference nodes; "
+               "PageDiff: a page staying in its bucket names every slot whose content differs from the stored content, a page going to a fresh bucket names every meaningful slot, a cleared page was stored and is not required.")
 OVERFLOW_RUN = {"cmd": "overflow", "mode": "overflow", "cases": {"quick": 160, "thorough": 3000}, "shards": {"quick": 4, "thorough": 16}}
 UNIT_RULE = (" Unit-level differentials through nomt::verif_api: triepos (every function of trie_pos.rs / page_id.rs / page_region.rs and the page node layout on positions of every depth 1..256, moves, page ids of depth 0..42, "
              "malformed inputs where the Rust asserts); shards (worker ranges, batch ownership, witnessed_start, child-page roots, pending list and the witness exactly as join assembles it, recorded from REAL updates with worker counts "
@@ -196,8 +208,8 @@ PROPS = {
                               {"cmd": "image-script", "mode": "image", "args": ["--focus", "script-freelist-reopen"], "cases": {"quick": 1, "thorough": 1}, "corpus": True},
                               {"cmd": "image-range-sweep", "mode": "image", "cases": {"quick": 1, "thorough": 4}, "shards": {"quick": 4, "thorough": 16}, "per_shard_cases": True},
                               {"cmd": "image-branch-merge-sweep", "mode": "image", "cases": {"quick": 1, "thorough": 4}, "shards": {"quick": 4, "thorough": 16}, "per_shard_cases": True},
-                              {"cmd": "image-branch-ops", "mode": "image", "cases": {"quick": 8, "thorough": 160}, "shards": {"quick": 8, "thorough": 16}}, dict(IMG_RUN), dict(WAL_RUN), dict(TRIEPOS_RUN), dict(OVERFLOW_RUN), dict(LEAFUPD_RUN)] + BITOPS_RUNS + CRASH_IMAGES,
-        "rule": IMG_RULE + CRASH_IMAGES_RULE + WAL_RULE + BITOPS_RULE + UNIT_RULE,
+                              {"cmd": "image-branch-ops", "mode": "image", "cases": {"quick": 8, "thorough": 160}, "shards": {"quick": 8, "thorough": 16}}, dict(IMG_RUN), dict(WAL_RUN), dict(TRIEPOS_RUN), dict(OVERFLOW_RUN), dict(LEAFUPD_RUN), dict(WALKER_RUN)] + BITOPS_RUNS + CRASH_IMAGES,
+        "rule": IMG_RULE + CRASH_IMAGES_RULE + WAL_RULE + BITOPS_RULE + UNIT_RULE + WALKER_RULE,
         "trusted_base": IMG_TB, "assumptions": IMG_ASSUME,
     },
     "C19": {
@@ -254,8 +266,8 @@ PROPS = {
         "lines": ['root', 'finish', 'overlay', 'reopen', 'rootof', 'buildtrie', 'setkv'],
         "tags": ['C02'],
         "runs": DB_SCRIPT(["script-elision-threshold"]) + [DB("kv", 120, 1200, nops=14), DB("kv", 6, 60, nops=16, scale=100, shards_q=6), DB("overlay", 60, 600, nops=14),
-                 {"cmd": "core-pp", "mode": "core", "cases": {"quick": 300, "thorough": 6000}, "shards": {"quick": 4, "thorough": 16}}, dict(TRIEPOS_RUN), dict(SHARDS_RUN)],
-        "rule": DB_RULE + UNIT_RULE + " C02: every root reported by the real code (session base, finished session, overlay, Nomt::root, after reopen/rollback) is compared with the Lean specification function nodeAt executed on the model's key-value list (Blake3 implemented in Lean) and with the harness reference trie.",
+                 {"cmd": "core-pp", "mode": "core", "cases": {"quick": 300, "thorough": 6000}, "shards": {"quick": 4, "thorough": 16}}, dict(TRIEPOS_RUN), dict(SHARDS_RUN), dict(WALKER_RUN)],
+        "rule": DB_RULE + UNIT_RULE + WALKER_RULE + " C02: every root reported by the real code (session base, finished session, overlay, Nomt::root, after reopen/rollback) is compared with the Lean specification function nodeAt executed on the model's key-value list (Blake3 implemented in Lean) and with the harness reference trie.",
         "trusted_base": API_TB, "assumptions": API_ASSUME,
     },
     "C05": {
@@ -323,8 +335,8 @@ PROPS = {
                  {"cmd": "db-matrix", "mode": "api", "args": ["--focus", "kv", "--nops", "12", "--variants", "5", "--scale", "60"], "cases": {"quick": 4, "thorough": 40}, "shards": {"quick": 4, "thorough": 16}},
                  # fat values (3 keys per leaf): hundreds of leaves, so that a 1 MiB leaf cache (256 leaves) is full and page numbers are recycled under it
                  {"cmd": "db-matrix", "mode": "api", "args": ["--focus", "kv", "--nops", "12", "--variants", "5", "--scale", "30", "--fat"], "cases": {"quick": 8, "thorough": 80}, "shards": {"quick": 4, "thorough": 16}},
-                 dict(SHARDS_RUN)],
-        "rule": UNIT_RULE.strip() + " cases = generated histories, each executed under 5-8 configurations (commit_concurrency in {1,2,3,4,5,7,8,16,33,64}, warm_up on/off, page cache 1..256 MiB, leaf cache 1..256 MiB, io_workers 1..3, prepopulation, upper levels 0..3, hashtable_buckets in {4096,16384,64000}, different bitbox seeds; the runtime configuration also changes at every reopen); EVERY protocol line (roots, values, proofs byte-for-byte, commit / rollback verdicts, seqn) must be identical across configurations and equal to the configuration-free Lean model. distinct & non-trivial = (history, configuration) pairs beyond the first configuration that completed identically.",
+                 dict(SHARDS_RUN), dict(WALKER_SPLIT_RUN)],
+        "rule": UNIT_RULE.strip() + WALKER_RULE + " cases = generated histories, each executed under 5-8 configurations (commit_concurrency in {1,2,3,4,5,7,8,16,33,64}, warm_up on/off, page cache 1..256 MiB, leaf cache 1..256 MiB, io_workers 1..3, prepopulation, upper levels 0..3, hashtable_buckets in {4096,16384,64000}, different bitbox seeds; the runtime configuration also changes at every reopen); EVERY protocol line (roots, values, proofs byte-for-byte, commit / rollback verdicts, seqn) must be identical across configurations and equal to the configuration-free Lean model. distinct & non-trivial = (history, configuration) pairs beyond the first configuration that completed identically.",
         "trusted_base": API_TB, "assumptions": ["thread interleavings are whatever the runs happen to exhibit (sampled, not enumerated)", "sha2 hasher variant not exercised (engine is instantiated with Blake3)"],
     },
     "C06": {
